@@ -32,6 +32,7 @@ std::vector<Cloud> clouds3(bool th) {
   { Cloud c; c.name = "far plane at 80 m sampled every 2 cm"; plane_patch(c, {0, 1, 0}, 80.0, 15, 15, 0.02); v.push_back(c); }
   { Cloud c; c.name = "two planes meeting (roof)"; c.planar = false; for (int i = 0; i < 21; ++i) for (int j = 0; j < 10; ++j) { double x = (i - 10) * 0.1 + 0.007 * ((i * 3 + j) % 4), y = j * 0.1 + 0.009 * ((i + j * 5) % 3); c.pts.push_back({x, y, 4 - 0.5 * std::fabs(x)}); } v.push_back(c); }
   { Cloud c; c.name = "sphere patch radius 5 about (0,0,9)"; c.planar = false; for (int i = 0; i < 15; ++i) for (int j = 0; j < 15; ++j) { double a = (i - 7) * 0.04 + 0.003 * ((i * 5 + j) % 7), b = (j - 7) * 0.04 + 0.002 * ((i + 3 * j) % 5); c.pts.push_back({5 * std::sin(a), 5 * std::sin(b) * std::cos(a), 9 - 5 * std::cos(a) * std::cos(b)}); } v.push_back(c); }
+  { Cloud c; c.name = "full sphere radius 2 about (1,-3,4) (silhouette points included)"; c.planar = false; for (int i = 0; i < 400; ++i) { double z = 1 - 2 * (i + 0.5) / 400, r = std::sqrt(1 - z * z), a = i * 2.399963229728653; c.pts.push_back({1 + 2 * r * std::cos(a), -3 + 2 * r * std::sin(a), 4 + 2 * z}); } v.push_back(c); }
   { Cloud c; c.name = "plane z=3 with ripple 0.01"; c.planar = false; for (int i = 0; i < 16; ++i) for (int j = 0; j < 16; ++j) { double x = (i - 8) * 0.1 + 0.011 * ((i * 7 + j) % 5), y = (j - 8) * 0.1 + 0.007 * ((i + j * 3) % 4); c.pts.push_back({x, y, 3 + 0.01 * std::sin(7 * x) * std::cos(5 * y)}); } v.push_back(c); }
   return v;
 }
@@ -45,6 +46,7 @@ std::vector<Cloud> clouds2(bool th) {
   { Cloud c; c.name = "far line at 110 m sampled every 2 cm"; c.planar = true; c.normal = {1, 0, 0}; for (int i = 0; i < 60; ++i) c.pts.push_back({110, (i - 30) * 0.02 + 0.003 * ((i * 7) % 3), 0}); v.push_back(c); }
   { Cloud c; c.name = "corner (two lines meeting)"; c.planar = false; for (int i = 0; i < 40; ++i) { double s = i * 0.05 + 0.004 * ((i * 3) % 5); c.pts.push_back({2 + s, 3, 0}); c.pts.push_back({2, 3 + s + 0.021, 0}); } v.push_back(c); }
   { Cloud c; c.name = "circle arc radius 4 about (0,7)"; c.planar = false; for (int i = 0; i < 80; ++i) { double a = (i - 40) * 0.02 + 0.0017 * ((i * 5) % 7); c.pts.push_back({4 * std::sin(a), 7 - 4 * std::cos(a), 0}); } v.push_back(c); }
+  { Cloud c; c.name = "full circle radius 2 about (5,1) (silhouette points included)"; c.planar = false; for (int i = 0; i < 150; ++i) { double a = i * (2 * M_PI / 150) + 0.004 * ((i * 5) % 7); c.pts.push_back({5 + 2 * std::cos(a), 1 + 2 * std::sin(a), 0}); } v.push_back(c); }
   { Cloud c; c.name = "line y=3 with ripple 0.01"; c.planar = false; for (int i = 0; i < 120; ++i) { double x = (i - 60) * 0.03 + 0.004 * ((i * 7) % 5); c.pts.push_back({x, 3 + 0.01 * std::sin(9 * x), 0}); } v.push_back(c); }
   return v;
 }
